@@ -109,6 +109,25 @@ def check(prop, tier, seed, replay):
     import collections
     summ = collections.Counter("%s.%s" % (b[0], b[1]) for b in verdict["bad"])
     log("failed clauses by kind: %s" % dict(summ))
+    # timing safety (lifecycle family): a behaviour in which a call on an open short-timeout transaction
+    # returned later than 60% of the timeout after the Set is not judged (the timer may have raced the call)
+    unsafe = set()
+    opened = {}
+    for e in events:
+        if e["ev"] == "init":
+            opened[e["b"]] = None
+        elif e["ev"] == "txset" and e["ret"] == "ok" and not e["dry"] and e["post"]["open"] != "-":
+            opened[e["b"]] = e["tmo"]
+        elif opened.get(e["b"]) is not None and e["ev"] in ("txset", "confirm", "cancel", "restart"):
+            if opened[e["b"]] < 5000 and e.get("since", -1) > 0.6 * opened[e["b"]]:
+                unsafe.add(e["b"])
+        if e["post"]["open"] == "-":
+            opened[e["b"]] = None
+    if unsafe:
+        log("timing-unsafe behaviours dropped: %d" % len(unsafe))
+    if len(unsafe) > max(3, len(behs) // 10):
+        raise Inconclusive("too many timing-unsafe behaviours (%d of %d): machine too loaded" % (len(unsafe), len(behs)))
+    verdict["bad"] = [b for b in verdict["bad"] if step_of(events, b[2])["b"] not in unsafe]
     mine = [b for b in verdict["bad"] if b[0] == prop]
     model = [b for b in verdict["bad"] if b[0] == "M"]
     violations, knownhits = [], {}
